@@ -149,6 +149,8 @@ def run(ctx: Ctx) -> dict:
             iban = gen.valid_iban(row, rng)
             ops.append({"op": "iban.new", "t": cps(iban), "vb": True})
             ops.append({"op": "bban.nat", "t": cps(iban)})
+    import fuzz
+    ops = fuzz.extend(ctx, ops, "c06", accept=lambda o: not o.get("plain"))
     events = calls.execute(ctx, ops, "c06")
     mism = calls.validate(ctx, "TraceNational", events, env, "c06", per_shard=8000)
     calls.report(ctx, mism, None, keyfn)
